@@ -7,7 +7,7 @@ ALL = ["C%02d" % i for i in range(1, 21)]
 CHECKS = {
  "C08": ("exploration", "property-based testing: bounded-exhaustive enumeration of short inputs + grammar-aware generated streams (proptest byte->case decoders) with a totality/length/allocation oracle",
          "Every data string of length <=2 (<=3 thorough) on a grid of tiny sizes is enumerated; above that, millions of generated order-aware streams, mutated reference encodings and raw buffers; oracle = no panic, Ok implies len == w*h*4, allocation bound. Finds any total-function violation reachable by those generators; cannot show absence.",
-         "Trusted: the harness's panic capture and counting allocator; dimensions capped for memory; direct decoder calls only with output slices at least as large as the library's own caller uses.", "DESIGN §6 C08"),
+         "Trusted: the harness's panic capture and counting allocator; dimensions capped for memory; direct decoder calls only with output slices at least as large as the library's own caller uses. A call that does not return is confirmed like in C05 (re-executed alone, 240 s) and reported as hang:call-does-not-return.", "DESIGN §6 C08"),
  "C09": ("exploration", "property-based testing: images x all conformant encodings from an independent nondeterministic reference encoder; oracle = source image + independent reference decoder",
          "Every tiny image with every encoding (capped), plus generated images up to 64x64 (256x256 thorough) with randomly chosen conformant encodings for interleaved RLE, planar RLE and raw; library output must equal the source image byte for byte.",
          "Trusted: reference encoder/decoder written from MS-RDPBCGR/MS-RDPEGDI (cross-checked against each other on every case; a disagreement is exit 2). Domain restrictions: no BG/FG/FGBG order straddles the first scanline boundary; raw 16 bpp only for even widths.", "DESIGN §6 C09"),
